@@ -162,5 +162,150 @@ def rtHyps (env : JEnv) (v : Value) (t : Ty) : Bool :=
   v.v.whollyKnown && !v.v.containsMarked && !Ty.hasCapsule v.ty &&
   Ty.matches t v.ty && numsOK v.v
 
+/-! ### documents -/
+
+/-! the structural type of a document whose object keys are distinct, ascending and
+normalised: JSON null ↦ placeholder, array ↦ tuple, object ↦ object -/
+mutual
+def structTy : Json → Ty
+  | .null => .dyn
+  | .bool _ => .bool
+  | .num _ => .number
+  | .str _ => .string
+  | .arr xs => .tuple (structTyL xs)
+  | .obj ks vs => .object ks (structTyL vs) (ks.map fun _ => false)
+def structTyL : List Json → List Ty
+  | [] => []
+  | x :: xs => structTy x :: structTyL xs
+end
+
+/-! documents covered by `doc_roundtrip_partial`: object keys strictly ascending (hence
+no duplicates) and normalised, strings normalised, every number literal parses to a
+number that satisfies `NumOK` -/
+mutual
+def docOK (env : JEnv) : Json → Bool
+  | .null => true
+  | .bool _ => true
+  | .num l =>
+    match Num.parse512 l with
+    | .ok n => numOK n
+    | _ => false
+  | .str s => env.norm s == s
+  | .arr xs => docOKL env xs
+  | .obj ks vs =>
+    Ty.strictAsc ks && (ks.all fun k => env.norm k == k) && ks.length == vs.length && docOKL env vs
+def docOKL (env : JEnv) : List Json → Bool
+  | [] => true
+  | x :: xs => docOK env x && docOKL env xs
+end
+
+/-! the same document up to number spelling (numbers compared as 512-bit parses by
+`rawNumberEqual`) -/
+mutual
+def jsonEquiv : Json → Json → Bool
+  | .null, .null => true
+  | .bool a, .bool b => a == b
+  | .str a, .str b => a == b
+  | .num a, .num b =>
+    match Num.parse512 a, Num.parse512 b with
+    | .ok x, .ok y => Num.rawEqual x y
+    | _, _ => false
+  | .arr xs, .arr ys => jsonEquivL xs ys
+  | .obj k1 xs, .obj k2 ys => k1 == k2 && jsonEquivL xs ys
+  | _, _ => false
+def jsonEquivL : List Json → List Json → Bool
+  | [], [] => true
+  | x :: xs, y :: ys => jsonEquiv x y && jsonEquivL xs ys
+  | _, _ => false
+end
+
+/-- the document check: implied type, decode with it, re-encode, compare -/
+def docCheck (env : JEnv) (top : Bool) (d : Json) : Bool :=
+  match impliedType env d with
+  | .ok t =>
+    match unmarshal env top d t with
+    | .ok v =>
+      match marshal env v t with
+      | .ok d' => jsonEquiv d' d
+      | _ => false
+    | _ => false
+  | _ => false
+
+/-! ### the full document statement: validity and equivalence up to key order -/
+
+def sameImplied (env : JEnv) (a b : Json) : Bool :=
+  match impliedType env a, impliedType env b with
+  | .ok x, .ok y => x.equals y
+  | _, _ => false
+
+/-- members after (k, v) with the same normalised key have the same implied type -/
+def agreeWith (env : JEnv) (k : String) (v : Json) : List String → List Json → Bool
+  | k' :: ks, v' :: vs =>
+    (if env.norm k' = env.norm k then sameImplied env v v' else true) && agreeWith env k v ks vs
+  | _, _ => true
+
+def noConflict (env : JEnv) : List String → List Json → Bool
+  | k :: ks, v :: vs => agreeWith env k v ks vs && noConflict env ks vs
+  | _, _ => true
+
+/-! "valid JSON document with representable numbers and no conflicting duplicate keys" -/
+mutual
+def docValid (env : JEnv) : Json → Bool
+  | .num l =>
+    match Num.parse512 l with
+    | .ok n => numOK n
+    | _ => false
+  | .arr xs => docValidL env xs
+  | .obj ks vs => ks.length == vs.length && docValidL env vs && noConflict env ks vs
+  | _ => true
+def docValidL (env : JEnv) : List Json → Bool
+  | [] => true
+  | x :: xs => docValid env x && docValidL env xs
+end
+
+/-- insert a member into ascending parallel lists unless the key is already there (used
+right-to-left: the last duplicate in document order stands, as in plain JSON decoding) -/
+def insertMember (k : String) (v : Json) : List String → List Json → List String × List Json
+  | n :: ns, u :: us =>
+    if k < n then (k :: n :: ns, v :: u :: us)
+    else if k = n then (n :: ns, u :: us)
+    else
+      let r := insertMember k v ns us
+      (n :: r.1, u :: r.2)
+  | _, _ => ([k], [v])
+
+def sortMembers : List String → List Json → List String × List Json
+  | k :: ks, v :: vs =>
+    let r := sortMembers ks vs
+    insertMember k v r.1 r.2
+  | _, _ => ([], [])
+
+/-! canonical form: keys normalised, sorted, last duplicate stands; strings normalised -/
+mutual
+def canon (env : JEnv) : Json → Json
+  | .str s => .str (env.norm s)
+  | .arr xs => .arr (canonL env xs)
+  | .obj ks vs =>
+    let r := sortMembers (ks.map env.norm) (canonL env vs)
+    .obj r.1 r.2
+  | j => j
+def canonL (env : JEnv) : List Json → List Json
+  | [] => []
+  | x :: xs => canon env x :: canonL env xs
+end
+
+/-- the document check of the full statement: same document up to key order, number
+spelling and string normalisation -/
+def docCheckFull (env : JEnv) (top : Bool) (d : Json) : Bool :=
+  match impliedType env d with
+  | .ok t =>
+    match unmarshal env top d t with
+    | .ok v =>
+      match marshal env v t with
+      | .ok d' => jsonEquiv (canon env d') (canon env d)
+      | _ => false
+    | _ => false
+  | _ => false
+
 end JsonVal
 end CtyModel
